@@ -435,3 +435,16 @@ func TestKnownFindings(t *testing.T) {
 		}
 	}
 }
+
+// TestSizeSweep: the address clause for a token of every sealed size around
+// the framing / buffer boundaries.
+func TestSizeSweep(t *testing.T) {
+	n := 0
+	for _, size := range tok.SweepSizes() {
+		if d, _, ok := tok.PaddedDlg(size); ok {
+			addrProp.One(t, AddrCase{Tok: d})
+			n++
+		}
+	}
+	P.SetExtra("size_sweep_tokens", n)
+}
